@@ -1,8 +1,9 @@
-\* C19 keybase, thorough: 3 keys (2 held by the client, 1 created inside), 4 passphrases (e, w, u, v), at most 2 exported
+\* C19 keybase, thorough: 3 keys (1 raw ed25519 and 1 secp256k1 held by the client, 1 created inside), 4 passphrases (e, w, u, v), at most 2 exported
 \* armors kept; every transition is checked against StepOK (VIEW leaves the label and the history out)
 CONSTANTS
     NK = 3
     NKnown = 2
+    Secp = {2}
     Passes = {"e", "w", "u", "v"}
     MaxArm = 2
     Depth = 0
